@@ -1,4 +1,5 @@
 import Proofs.Merkle.Honest
+import Proofs.Merkle.HasMatch
 /-!
 # C29 — Merkle-sum-index proofs for committed relays always verify
 
@@ -65,8 +66,9 @@ example : GoodSums id [[3], [1], [5], [2], [4]] ∧ 5 ≤ ([[3], [1], [5], [2], 
   refine ⟨⟨by decide, by decide, by decide⟩, by decide⟩
 
 /-- The level count used at verification (`levels n`, the keeper's `⌈log₂ n⌉`) equals the tree
-depth produced by padding: the generated proof carries exactly `levels n` sibling entries, and the
-padded leaf level has `2 ^ levels n` nodes. -/
+depth produced by padding: the padded leaf level has `2 ^ levels n` nodes, the generated proof
+carries exactly `levels n` sibling entries, and it passes the merkle part of `Keeper.ValidateProof`
+(level check, `hasMatch`, `Validate`) with `TotalProofs = n`. -/
 theorem levels_matches_hashranges (H : Bytes → Bytes) (post : Bool) (leaves : List Bytes)
     (hn : 2 ≤ leaves.length) (h32 : leaves.length ≤ 2 ^ 32) (hg : GoodSums H leaves)
     (i : Nat) (hi : i < leaves.length) :
@@ -100,8 +102,21 @@ theorem levels_matches_hashranges (H : Bytes → Bytes) (post : Bool) (leaves : 
   rw [hlen] at h4 h5
   refine ⟨nextPowerOfTwo_eq _ (by omega) h32, p, leaf, h2, h5, ?_⟩
   have hr : genRoot H post leaves = some (root, sorted) := h1
-  simp only [hr, validateProof, h5, ne_eq, not_true_eq_false, if_false]
+  have hm := genProofE_hasMatch H post (entries H leaves) (by omega) (by omega) root sorted h1 i p leaf h2
+  simp only [hr, validateProof, h5, ne_eq, not_true_eq_false, if_false, hm, Bool.not_true,
+    Bool.false_eq_true]
   exact h4
+
+/-- The keeper's `hasMatch` test (some sibling entry or the target ends where the root ends) never
+rejects a generated proof — for any leaf set, good sums or not. -/
+theorem generated_proof_has_match (H : Bytes → Bytes) (post : Bool) (leaves : List Bytes)
+    (hn : 2 ≤ leaves.length) (h32 : leaves.length ≤ 2 ^ 32) (root : HashRange) (sorted : List Bytes)
+    (hroot : genRoot H post leaves = some (root, sorted)) (i : Nat) (p : MerkleProof) (leaf : Bytes)
+    (hgen : genProof H post leaves i = some (p, leaf)) : hasMatch p root = true := by
+  have hlen : (entries H leaves).length = leaves.length := by simp [entries]
+  exact genProofE_hasMatch H post (entries H leaves) (by omega) (by omega) root sorted hroot i p leaf hgen
+
+example : hasMatch ⟨1, [⟨[], 0, 4⟩, ⟨[], 7, 9⟩], ⟨[], 4, 7⟩⟩ ⟨[], 0, 9⟩ = true := by decide
 
 /-- The level count is the exact ceiling of log₂ of the relay count. -/
 theorem levels_spec (n : Nat) : n ≤ 2 ^ levels n ∧ ∀ k, n ≤ 2 ^ k → levels n ≤ k :=
